@@ -10,7 +10,7 @@ pub const MAXB: usize = 32;
 /// image = head (concrete) ++ `tail` symbolic bytes; returns (bytes, total length)
 fn image(head: &[u8], tail: usize) -> ([u8; MAXB], usize) {
     let mut b = [0u8; MAXB];
-    b[..head.len()].copy_from_slice(head);
+    super::util::put_const(&mut b, 0, head);
     let mut k = 0;
     while k < tail { b[head.len() + k] = vs::u8(); k += 1; }
     (b, head.len() + tail)
@@ -65,7 +65,7 @@ fn bytes_eq(a: &[u8], b: &[u8]) -> bool {
 pub fn bulk(lentext: &'static [u8], declared: Option<i64>, tail: usize) {
     let mut head = [0u8; 32];
     head[0] = b'$';
-    head[1..1 + lentext.len()].copy_from_slice(lentext);
+    super::util::put_const(&mut head, 1, lentext);
     head[1 + lentext.len()] = b'\r';
     head[2 + lentext.len()] = b'\n';
     let hl = 3 + lentext.len();
@@ -116,7 +116,7 @@ pub fn bulk(lentext: &'static [u8], declared: Option<i64>, tail: usize) {
 pub fn buffered_agrees(lentext: &'static [u8], tail: usize) {
     let mut head = [0u8; 32];
     head[0] = b'$';
-    head[1..1 + lentext.len()].copy_from_slice(lentext);
+    super::util::put_const(&mut head, 1, lentext);
     head[1 + lentext.len()] = b'\r';
     head[2 + lentext.len()] = b'\n';
     let hl = 3 + lentext.len();
@@ -183,7 +183,7 @@ fn utf8_ok(b: &[u8]) -> bool { let mut i = 0; while i < b.len() { if b[i] >= 0x8
 pub fn array(lentext: &'static [u8], declared: Option<i64>, nelem: usize, partial: bool) {
     let mut b = [0u8; 48];
     b[0] = b'*';
-    b[1..1 + lentext.len()].copy_from_slice(lentext);
+    super::util::put_const(&mut b, 1, lentext);
     b[1 + lentext.len()] = b'\r';
     b[2 + lentext.len()] = b'\n';
     let hl = 3 + lentext.len();
